@@ -64,6 +64,12 @@ def _clouds(unit):
         yield ("cross", d), np.vstack([np.eye(d) * 2 + 1, np.ones(d), 1 + np.ones(d) * 0.25])
         rng = np.random.default_rng(31 + unit["seed"])
         yield ("seeded", d), np.round(rng.uniform(0, 3, (d + 4, d)) * 8) / 8
+        # flat AND elongated sheets (rank 2 in d dimensions, aspect ratios 50 .. 30000), non-negative coordinates
+        for asp in (50.0, 3000.0, 30000.0):
+            u = np.zeros(d); u[0], u[1] = 0.6, 0.8
+            v = np.zeros(d); v[2], v[-1] = 0.6, 0.8
+            Y = np.array([[0.0, 0.0], [asp, 0.0], [asp, 1.0], [0.0, 1.0], [asp / 2, 0.5], [asp / 3, 0.25], [asp / 5, 0.75]])
+            yield ("sheet-%d" % asp, d), Y[:, :1] * u + Y[:, 1:] * v + 0.5
 
 
 def run_unit(unit, rec):
